@@ -86,3 +86,84 @@ package comdoc
 //@   requires r.SectorSize == 512 || r.SectorSize == 4096
 //@   ensures @every_allocation_table_sector_is_listed (r.SectorSize == 512 ==> len(r.SAT) / 128 <= len(r.MSAT)) && (r.SectorSize == 4096 ==> len(r.SAT) / 1024 <= len(r.MSAT))
 //@   ensures @listed_sectors_fit_the_header_and_the_msat_sectors (r.SectorSize == 512 ==> len(r.MSAT) <= 109 + len(r.msatList) * 127) && (r.SectorSize == 4096 ==> len(r.MSAT) <= 109 + len(r.msatList) * 1023)
+
+//@ macro readerOK(r *ComDoc) bool = r.File != nil && r.Header != nil && (r.SectorSize == 512 || r.SectorSize == 4096) && len(r.sectorBuf) == r.SectorSize
+//@
+//@ func nextInChain
+//@   property C11
+//@   nopanic
+//@   ensures @only_sectors_the_table_covers_are_followed ret1 == nil ==> 0 <= sector && sector < len(sat) && ret0 == sat[sector]
+//@   modifies nothing
+//@
+//@ func (*ComDoc).readSectorStruct
+//@   property C11
+//@   nopanic
+//@   requires readerOK(r)
+//@   modifies mem(r.sectorBuf), *v
+//@
+//@ func (*ComDoc).readSAT
+//@   property C11
+//@   nopanic
+//@   requires readerOK(r)
+//@   allocbound 0 4096
+//@   loop 0 sig "for _, sector := range r.MSAT" invariant -1 <= rangeindex && rangeindex < len(pre(r.MSAT)) && readerOK(r) && len(block) == count && 0 <= sectors && sectors <= rangeindex + 1 && \
+//@        (sat == nil || allocated(sat))
+//@
+//@ func (*ComDoc).readShortSAT
+//@   property C11
+//@   nopanic
+//@   requires readerOK(r)
+//@   allocbound 0 4096
+//@   loop 0 sig "for sector := r.Header.SSATNextSector; sector >= 0;" invariant readerOK(r) && len(block) == count && 0 <= sectors && (sat == nil || allocated(sat))
+//@
+//@ func (*ComDoc).readShortSector
+//@   property C11
+//@   nopanic
+//@   requires readerOK(r) && 0 <= r.rootStorage && r.rootStorage < len(r.Files) && r.ShortSectorSize >= 1 && r.ShortSectorSize <= r.SectorSize
+//@   loop 0 sig "for i := 0; i < bigSectorIndex; i++" invariant readerOK(r) && 0 <= i
+//@
+//@ func (*ComDoc).RootStorage
+//@   property C11
+//@   nopanic
+//@   requires 0 <= r.rootStorage && r.rootStorage < len(r.Files)
+//@   ensures ret0 != nil
+//@   modifies nothing
+//@
+//@ func (*ComDoc).ListDir
+//@   property C11
+//@   nopanic
+//@   requires 0 <= r.rootStorage && r.rootStorage < len(r.Files)
+//@   loop 0 sig "for len(stack) > 0" invariant 0 <= r.rootStorage && r.rootStorage < len(r.Files) && (stack == nil || allocated(stack)) && (files == nil || allocated(files)) && \
+//@        forall(k, 0, len(files), files[k] != nil)
+//@   ensures @every_listed_entry_exists ret1 == nil ==> forall(k, 0, len(ret0), ret0[k] != nil)
+//@
+//@ extern (RawDirEnt).Name
+//@   pure
+//@
+//@ extern dynamic .readSector(s, buf) ret (n, e)
+//@   modifies mem(buf)
+//@   ensures 0 <= n && n <= len(buf)
+//@
+//@ func (*ComDoc).readSector
+//@   property C11
+//@   nopanic
+//@   requires r.File != nil
+//@   modifies mem(buf)
+//@
+//@ func (*streamReader).Read
+//@   property C11
+//@   nopanic
+//@   requires sr.readSector != nil && sr.sectorSize >= 1 && len(sr.buf) == sr.sectorSize && len(sr.saved) <= sr.sectorSize
+//@   loop 0 sig "for len(d) >= sr.sectorSize" invariant sr.readSector != nil && sr.sectorSize >= 1 && len(sr.buf) == sr.sectorSize
+//@
+//@ func (*ComDoc).readDir
+//@   property C11
+//@   nopanic
+//@   requires readerOK(r)
+//@   allocbound 0 8192
+//@   allocbound 1 8192
+//@   allocbound 2 8 * len(r.Files)
+//@   loop 2 sig "for _, f := range rootFiles" invariant -1 <= rangeindex && rangeindex < len(rootFiles) && forall(k, 0, len(rootFiles), rootFiles[k] != nil)
+//@   loop 0 sig "for sector := r.Header.DirNextSector; sector >= 0;" invariant readerOK(r) && len(raw) == count && len(cooked) == count && 0 <= sectors && \
+//@        (rootIndex >= 0 ==> rootIndex < len(files) + 0) && -1 <= rootIndex && (files == nil || allocated(files))
+//@   loop 1 sig "for i, raw := range raw" invariant -1 <= rangeindex && rangeindex < count && len(cooked) == count && readerOK(r) && -1 <= rootIndex && rootIndex < len(files) + count
